@@ -4,6 +4,7 @@ CONSTANTS
   BoxStride = 1
   CatStride = 1
   PairStride = 5
+  SameStride = 1
   ShapeFrom = "named dims"
 CONSTRAINT Export
 INVARIANT ImplRefinesReq
